@@ -1,3 +1,4 @@
 //! Verification MODEL of the parts of `tokio::sync` that fn_graph and
 //! interruptible use. Single task, no threads: state lives in `Rc<..Cell..>`.
 pub mod sync;
+pub mod model;
